@@ -98,9 +98,13 @@ void report_t::normalize_options(const string& verb)
   if (HANDLED(datetime_format_))
     set_datetime_format(HANDLER(datetime_format_).str().c_str());
   if (HANDLED(start_of_week_)) {
-    if (optional<date_time::weekdays> weekday =
-        string_to_day_of_week(HANDLER(start_of_week_).str()))
+    // day names are matched in lower case, as in period expressions
+    string day(lowered(HANDLER(start_of_week_).str()));
+    if (optional<date_time::weekdays> weekday = string_to_day_of_week(day))
       start_of_week = *weekday;
+    else
+      throw_(std::invalid_argument,
+             _f("Unknown day of the week: %1%") % HANDLER(start_of_week_).str());
   }
 
   long meta_width = -1;
